@@ -310,8 +310,33 @@ def replay(path):
         return 2
     ta, tb = from_json(ent["a_json"]), from_json(ent["b_json"])
     A, B = AB.to_pyteal(ta), AB.to_pyteal(tb)
-    r = real_assignable(A, B)
     ck = Check("C19", "quick")
+    kind = ent.get("kind", "")
+    if kind.startswith("gate-set"):
+        import pyteal as pt
+        from pyteal import abi
+
+        class _CV(abi.ComputedValue):
+            def produced_type_spec(self):
+                return A
+
+            def store_into(self, output):
+                return pt.Seq()
+
+        calls = {"gate-set": lambda: B.new_instance().set(A.new_instance()),
+                 "gate-set-computed": lambda: B.new_instance().set(_CV()),
+                 "gate-set-member-tuple": lambda: abi.TupleTypeSpec(B, abi.BoolTypeSpec()).new_instance().set(A.new_instance(), abi.Bool()),
+                 "gate-set-member-darr": lambda: abi.DynamicArrayTypeSpec(B).new_instance().set([A.new_instance()]),
+                 "gate-set-member-sarr": lambda: abi.StaticArrayTypeSpec(B, 1).new_instance().set([A.new_instance()])}
+        r = call_real(calls[kind])
+        f = oracle_pair(ck, ent["str_a"], ent["str_b"], ck.rng, 5)
+        print("%s: source %s into target %s: %s; oracle: %s" % (kind, ent["str_a"], ent["str_b"], "accepted" if r[0] == "ok" else r[1:],
+                                                              "same encoding" if f is None else f))
+        if r[0] == "ok" and f is not None:
+            print("VIOLATION property=C19 replay=%s" % path)
+            return 1
+        return 0
+    r = real_assignable(A, B)
     f = oracle_pair(ck, str(A), str(B), ck.rng, 5)
     print("type_spec_is_assignable_to(%s, %s) = %r; oracle: %s" % (str(A), str(B), r, "same encoding" if f is None else f))
     if r[0] == "ok" and r[1] and f is not None:
